@@ -45,10 +45,11 @@ GOENV = {
 # --------------------------------------------------------------------------- check table
 # run: test = -test.run regexp; n = rapid.checks per tier (total over shards); shards per tier;
 #      steps = rapid.steps; variant = build variant; timeout in seconds per shard.
-def R(test, quick, thorough, shards=(8, 16), steps=None, timeout=(600, 3000), extra=None, norapid=False, env=None, fuzz=None, tiers=("quick", "thorough")):
+def R(test, quick, thorough, shards=(8, 16), steps=None, timeout=(600, 3000), extra=None, norapid=False, env=None, fuzz=None, tiers=("quick", "thorough"), variant=None):
     """fuzz = seconds of native 'go test -fuzz' (coverage guided, all cores); such an entry only runs in the tiers listed."""
     return dict(test=test, n=dict(quick=quick, thorough=thorough), shards=dict(quick=shards[0], thorough=shards[1]),
-                steps=steps, timeout=dict(quick=timeout[0], thorough=timeout[1]), extra=extra or [], norapid=norapid, env=env or {}, fuzz=fuzz, tiers=tiers)
+                steps=steps, timeout=dict(quick=timeout[0], thorough=timeout[1]), extra=extra or [], norapid=norapid, env=env or {}, fuzz=fuzz, tiers=tiers,
+                variant=variant)  # variant: build variant of this run if it differs from the check's
 
 
 CHECKS = {}
@@ -129,7 +130,7 @@ check("C10", "the directory is a valid OCI layout equal to the API state", "expl
       "Trusted: the validator in harness/layout.go (written from the image-layout spec wording quoted by the property); by-digest visibility of manifests touched by open finding "
       "orphaned-child (finding 12) is excluded from the differentials and counted.",
       "DESIGN.md §3 C10",
-      [R("^TestC10$", 3600, 60000, shards=(8, 16), steps=30)])
+      [R("^TestC10$", 3600, 60000, shards=(8, 16), steps=30), R("^TestC10FirstWrite$", 4000, 100000)])
 
 check("C08", "upload sessions sequential, isolated, no residue", "exploration",
       "rapid state machine inside a testing/synctest bubble (virtual time, true quiescence) vs session model; residue scan of _uploads",
@@ -175,11 +176,12 @@ check("C05", "GC never removes retained or recent content", "exploration",
       "Randomised model-based search over object graphs (shared and aliased digests, nested indexes, foreign-typed children, referrers of referrers, dangling/blob-only/circular subjects), "
       "push/delete histories, ageing, and collections per repository, store-wide and through restart under all 16 policy combinations x grace {off, 1 h} x {mem, dir}; before each collection "
       "the must-keep set is computed from the statement alone (settings never add to it), after it every member must be served byte-identically, every tag must resolve and pull completely. A second generator runs 2-5 clients pushing complete images "
-      "(shared layers, three upload protocols) while a 1 ms ticker and a collection loop run with every policy on and a 1 h grace: no upload may be lost between its blobs and its manifest.",
+      "(shared layers, three upload protocols, optionally over stale copies of the same layers) while a 1 ms ticker and a collection loop run with every policy on and a 1 h grace: no upload may be lost between its blobs and its manifest. "
+      "A third test owns the schedule (vfs pause points): a collection of the directory store is paused before its stat or its removal of an old blob and a client request (a completing PUT already in flight, uploads, a mount, a manifest push) runs at that moment.",
       "Trusted: the closure in c05_test.go (two documented weakenings from Appendix B of DESIGN.md; root status of child manifests is not asserted while finding C05/orphaned-child is open - counted "
       "in evidence); ageing through the add-only hook VerifAgeBlobs (Chtimes / in-memory metadata).",
       "DESIGN.md §3 C05",
-      [R("^TestC05$", 12000, 120000, steps=35), R("^TestC05Concurrent$", 1600, 20000, shards=(4, 16))])
+      [R("^TestC05$", 12000, 120000, steps=35), R("^TestC05Concurrent$", 1600, 20000, shards=(4, 16)), R("^TestC05Interleave$", 96, 1200, shards=(8, 16), variant="vfs")])
 
 check("C06", "collection removes exactly the garbage, converges, is not starved", "exploration",
       "E2 object graphs + multi-repository mixes (ghost/empty/removed/corrupt) aged beyond grace; oracle = reachability over the post-pass index (no garbage, no dangling entry), policy rules where unambiguous, second pass is a no-op, per healthy repository",
@@ -591,16 +593,22 @@ def cmd_check(pid, tier):
         with Lock(work + ".lock"):
             try:
                 binp = prepare(work, c["variant"])
+                bins = {c["variant"]: (binp, work)}
                 all_stats, violations, known_hits, infra = [], [], [], []
                 notes = []
                 for run in c["runs"]:
                     if tier not in run.get("tiers", ("quick", "thorough")):
                         continue
+                    rv = run.get("variant") or c["variant"]
+                    if rv not in bins:
+                        w2 = work + "-" + rv
+                        bins[rv] = (prepare(w2, rv), w2)
+                    binp_r, work_r = bins[rv]
                     attempt_seed = seed
                     for attempt in range(3):
-                        results = run_shards(binp, work, pid, tier, run, attempt_seed, open_sigs, c["variant"])
+                        results = run_shards(binp_r, work_r, pid, tier, run, attempt_seed, open_sigs, rv)
                         stats, fails = collect(results)
-                        if c["variant"] == "race":
+                        if rv == "race":
                             races = parse_races(results)
                             if any(x["_harness_only"] for x in races):
                                 raise Infra("data race inside the harness itself:\n" + [x for x in races if x["_harness_only"]][0]["message"][:3000])
@@ -622,7 +630,7 @@ def cmd_check(pid, tier):
                                 violations.append(rec)
                         for r in results:
                             has_fail = any(f.get("_shard") is r or f.get("shard") == str(r["shard"]) for f in fails)
-                            if c["variant"] == "race" and "race detected during execution of test" in r["out"]:
+                            if rv == "race" and "race detected during execution of test" in r["out"]:
                                 has_fail = True
                             if r["rc"] != 0 and not has_fail:
                                 infra.append(r)
